@@ -895,3 +895,203 @@ def eval_query_failure(ctx, mod, cname):
         return ("raised", exc.kind, seen), m
     except Unsupported as exc:
         return ("unsupported", str(exc), seen), m
+
+
+# --------------------------------------------------------------------------- worker-pool server: one connection's session
+def eval_server_session(ctx, requests):
+    """Server.handle_connection fed with the given request dicts (then EOF); scheduler and stream effects are recorded events.
+
+    Returns {"calls": [(method, kwargs/args)], "responses": [(kind, {key: value})], "ended": "return"|"raise <kind>", "reads": n}."""
+    import json as _json
+    idx = ctx.index
+    ci = idx.cls("gwf.backends.local:Server")
+    hc = idx.method(ci, "handle_connection")
+    lines = [(_json.dumps(r) + "\n").encode("utf-8") for r in requests]
+    state = {"i": 0}
+    calls, responses = [], []
+    next_tid = [100]
+
+    def h_readline(recv, *a):
+        i = state["i"]
+        state["i"] += 1
+        if i > len(lines) + 3:
+            raise Unsupported("handler keeps reading after EOF")
+        return lines[i] if i < len(lines) else b""
+
+    def h_enqueue(recv, *a, **k):
+        calls.append(("enqueue_task", a, dict(k)))
+        next_tid[0] += 1
+        return next_tid[0]
+
+    def h_encode(kind, **kw):
+        responses.append((kind, dict(kw)))
+        return "ENC"
+
+    hooks = {
+        "attr:readline": h_readline,
+        "attr:enqueue_task": h_enqueue,
+        "attr:cancel_task": lambda recv, *a, **k: calls.append(("cancel_task", a, dict(k))),
+        "attr:get_task_states": lambda recv, *a, **k: calls.append(("get_task_states", a, dict(k))) or {101: "STATE_101"},
+        "attr:get_task_state": lambda recv, *a, **k: calls.append(("get_task_state", a, dict(k))) or "STATE_OF_" + str((list(a) + list(k.values()))[0]),
+        "attr:shutdown": lambda recv, *a, **k: calls.append(("scheduler.shutdown", a, dict(k))),
+        "attr:close": lambda recv, *a, **k: calls.append(("close:" + getattr(recv, "_name", "?"), a, dict(k))),
+        "attr:wait_closed": lambda recv, *a, **k: calls.append(("wait_closed", a, dict(k))),
+        "attr:write": lambda recv, *a, **k: calls.append(("write", a, {})),
+        "attr:drain": lambda recv, *a, **k: None,
+        "gwf.backends.local.encode": h_encode,
+    }
+    interp = PureInterp(ctx, hooks=hooks)
+    interp.max_depth = 8
+    server = Obj("server_obj", scheduler=Obj("scheduler"), server=Obj("aio_server"), **{"__class__": ci})
+    for name, _ann, value in ci.fields:
+        if name not in ("scheduler", "server"):
+            server.__setattr__(name, Obj("field:" + name))
+    out = {"calls": calls, "responses": responses}
+    try:
+        interp.call(hc, (Obj("reader"), Obj("writer")), {}, self_obj=server)
+        out["ended"] = "return"
+    except Raised as exc:
+        out["ended"] = f"raise {exc.kind}"
+    except Unsupported as exc:
+        out["ended"] = f"unsupported: {exc}"
+    out["reads"] = state["i"]
+    return out, hc
+
+
+def server_session_witness(ctx):
+    """One well-formed session, an EOF-only session and a shutdown session of the pool's connection handler, against the protocol the client speaks."""
+    diffs, n = [], 0
+    sched = ctx.index.func("gwf.backends.local:Scheduler.enqueue_task")
+    params = sched.positional_params()[1:]
+    msg = {"name": "N", "script": "S", "working_dir": "/w", "time_limit": 5, "deps": [1, 2]}
+    reqs = [dict(msg, __kind__="enqueue_task"), {"__kind__": "get_task_states"}, {"__kind__": "cancel_task", "tid": 7}, {"__kind__": "close"}]
+    out, hc = eval_server_session(ctx, reqs)
+    if out["ended"].startswith("unsupported"):
+        return n, diffs, out["ended"]
+    n += 1
+    sc = [c for c in out["calls"] if c[0] in ("enqueue_task", "cancel_task", "get_task_states")]
+    enq = [c for c in sc if c[0] == "enqueue_task"]
+    if len(enq) != 1:
+        diffs.append(f"an enqueue_task request leads to {len(enq)} scheduler.enqueue_task call(s)")
+    else:
+        bound = dict(zip(params, enq[0][1]))
+        bound.update(enq[0][2])
+        if bound != msg:
+            diffs.append(f"enqueue_task request {msg} reaches the scheduler as {bound}: every field must arrive under its own name (deps are the prerequisites the task waits for)")
+    if [c[0] for c in sc] != ["enqueue_task", "get_task_states", "cancel_task"]:
+        diffs.append(f"requests [enqueue_task, get_task_states, cancel_task] lead to scheduler calls {[c[0] for c in sc]}")
+    can = [c for c in sc if c[0] == "cancel_task"]
+    if can and (list(can[0][1]) + list(can[0][2].values())) != [7]:
+        diffs.append(f"cancel_task for id 7 calls scheduler.cancel_task with {can[0][1]} {can[0][2]}")
+    resp = out["responses"]
+    if ("task_enqueued", {"tid": 101}) not in resp:
+        diffs.append(f"the id returned by the scheduler (101) is not what the client is told: responses {resp[:2]}")
+    if ("task_states", {"tasks": {101: "STATE_101"}}) not in resp:
+        diffs.append(f"a state query is not answered with the scheduler's state table: responses {resp}")
+    if len([c for c in out["calls"] if c[0] == "write"]) != len(resp):
+        diffs.append("a response is built but not written to the connection")
+    if out["ended"] != "return" or out["reads"] != len(reqs):
+        diffs.append(f"after `close` the handler {out['ended']}s having read {out['reads']} of {len(reqs)} requests (+EOF)")
+    # EOF only
+    out, _ = eval_server_session(ctx, [])
+    if out["ended"].startswith("unsupported"):
+        diffs.append("a client that disconnects without `close`: the handler keeps reading at end-of-stream (busy loop that starves every other client and task)")
+    n += 1
+    if any(c[0].startswith("close:aio_server") or c[0] == "scheduler.shutdown" for c in out["calls"]):
+        diffs.append("a dropped connection shuts the pool down")
+    # shutdown
+    out, _ = eval_server_session(ctx, [{"__kind__": "shutdown"}])
+    n += 1
+    if not any(c[0] == "close:aio_server" for c in out["calls"]):
+        diffs.append("a shutdown request does not close the listening server")
+    # unknown kind, then a valid request from the same client: must not reach the scheduler tables in a damaged way / must not shut down
+    out, _ = eval_server_session(ctx, [{"__kind__": "bogus", "x": 1}])
+    n += 1
+    if any(c[0] in ("close:aio_server", "scheduler.shutdown", "enqueue_task", "cancel_task") for c in out["calls"]):
+        diffs.append(f"an unknown request kind has effects on the pool: {[c[0] for c in out['calls']]}")
+    return n, diffs, None
+
+
+def eval_local_client(ctx):
+    """LocalOps.submit_target / cancel_job through the real Client methods with the socket streams hooked; returns the requests sent and results."""
+    import json as _json
+    idx = ctx.index
+    ops_ci = idx.cls("gwf.backends.local:LocalOps")
+    cl_ci = idx.cls("gwf.backends.local:Client")
+    sent, flushed = [], []
+    answers = []
+
+    def h_encode(kind, **kw):
+        sent.append((kind, dict(kw)))
+        return "ENC%d" % len(sent)
+
+    hooks = {
+        "gwf.backends.local.encode": h_encode,
+        "attr:write": lambda recv, data: flushed.append(("write", data)),
+        "attr:flush": lambda recv: flushed.append(("flush",)),
+        "attr:readline": lambda recv, *a: answers.pop(0) if answers else "",
+    }
+    client = Obj("client", sock=Obj("sock"), reader=Obj("reader"), writer=Obj("writer"), **{"__class__": cl_ci})
+    ops = Obj("ops", working_dir=PROJ, host="H", port=1, target_defaults={}, _client=client, **{"__class__": ops_ci})
+    interp = PureInterp(ctx, hooks=hooks)
+    interp.max_depth = 8
+    out = {}
+    answers.append(_json.dumps({"__kind__": "task_enqueued", "tid": 55}) + "\n")
+    try:
+        out["submit"] = interp.call(idx.method(ops_ci, "submit_target"), (Obj("target", name="N", spec="S", working_dir="/w"), [3, 4]), {}, self_obj=ops)
+    except (Raised, Unsupported) as exc:
+        out["submit"] = f"<{type(exc).__name__}: {exc}>"
+    out["submit_sent"] = list(sent)
+    out["submit_io"] = list(flushed)
+    del sent[:], flushed[:]
+    try:
+        out["cancel"] = interp.call(idx.method(ops_ci, "cancel_job"), (9,), {}, self_obj=ops)
+    except (Raised, Unsupported) as exc:
+        out["cancel"] = f"<{type(exc).__name__}: {exc}>"
+    out["cancel_sent"] = list(sent)
+    out["cancel_io"] = list(flushed)
+    return out
+
+
+def local_client_witness(ctx):
+    out = eval_local_client(ctx)
+    diffs = []
+    for k in ("submit", "cancel"):
+        if isinstance(out[k], str) and out[k].startswith("<Unsupported"):
+            return 0, diffs, out[k]
+    want = {"name": "N", "script": "S", "working_dir": "/w", "deps": [3, 4]}
+    ss = out["submit_sent"]
+    if len(ss) != 1 or ss[0][0] != "enqueue_task" or {k: v for k, v in ss[0][1].items() if k != "time_limit"} != want or ss[0][1].get("time_limit") is not None:
+        diffs.append(f"submitting target N with prerequisites [3, 4] sends {ss}; expected one enqueue_task carrying name, script, working_dir and deps=[3, 4]")
+    if out["submit"] != 55:
+        diffs.append(f"the pool answers task_enqueued tid=55 but submit_target returns {out['submit']!r}: a wrong id would be tracked for the target")
+    for k in ("submit_io", "cancel_io"):
+        io = out[k]
+        if [e[0] for e in io] != ["write", "flush"]:
+            diffs.append(f"the request is not written and flushed to the socket ({[e[0] for e in io]}): it never reaches the pool")
+    cs = out["cancel_sent"]
+    if cs != [("cancel_task", {"tid": 9})]:
+        diffs.append(f"cancelling job 9 sends {cs}; expected one cancel_task with tid=9")
+    return 2, diffs, None
+
+
+def eval_enqueue(ctx):
+    """Scheduler.enqueue_task evaluated with a fresh id 7: what is registered and what the worker coroutine is started with."""
+    idx = ctx.index
+    ci = idx.cls("gwf.backends.local:Scheduler")
+    m = idx.method(ci, "enqueue_task")
+    started = []
+
+    def h_task(recv, *a, **k):
+        started.append((a, dict(k)))
+        return Obj("coro")
+
+    hooks = {"attr:try_handle_task": h_task, "asyncio.create_task": lambda coro, **k: Obj("task", coro=coro),
+             "asyncio.ensure_future": lambda coro, **k: Obj("task", coro=coro)}
+    sched = Obj("scheduler", tasks={}, task_states={}, tid_generator=iter([7, 8, 9]), **{"__class__": ci})
+    interp = PureInterp(ctx, hooks=hooks)
+    try:
+        ret = interp.call(m, ("N", "S", "/w", 5, [1, 2]), {}, self_obj=sched)
+    except (Raised, Unsupported) as exc:
+        return {"error": f"{type(exc).__name__}: {exc}"}, m
+    return {"ret": ret, "tasks": dict(sched.tasks), "states": dict(sched.task_states), "started": started}, m
